@@ -47,10 +47,12 @@ theorem closeConn_mem_other {srv : Server} {x : Session} {c : Nat} (hx : x ∈ s
         · exact endSession_mem_other hput hsid
         · exact hput
 
-theorem runInSession_mem_other (cfg : Config) {srv : Server} {x ss : Session} (c : Nat) (r : Request)
-    (hx : x ∈ srv.sessions) (hne : x.id ≠ ss.id) : x ∈ (runInSession cfg srv c ss r).1.sessions := by
-  have hid := sessHandle_id cfg ss c r
+theorem runInSession_mem_other (cfg : Config) {srv : Server} {x ss : Session} (c : Nat) (r0 : Request)
+    (hx : x ∈ srv.sessions) (hne : x.id ≠ ss.id) : x ∈ (runInSession cfg srv c ss r0).1.sessions := by
   unfold runInSession
+  generalize ({ r0 with portBusy := portBusy cfg srv ss r0 } : Request) = r
+  have hid := sessHandle_id cfg ss c r
+  unfold runInSessionWith
   dsimp only
   have hput : x ∈ (putSession srv (sessHandle cfg ss c r).ss).sessions :=
     putSession_mem_other hx (by rw [hid]; exact hne)
@@ -63,7 +65,7 @@ theorem runInSession_link (cfg : Config) {srv : Server} {ss : Session} (c : Nat)
     ∀ cn', findConn (runInSession cfg srv c ss r).1 c = some cn' → cn'.sess = none ∨ cn'.sess = some ss.id := by
   intro cn' hf
   obtain ⟨hm, hcid⟩ := findConn_some_mem hf
-  unfold runInSession at hm
+  unfold runInSession runInSessionWith at hm
   dsimp only at hm
   split at hm
   · have hm2 := endSession_conns_sub _ _ cn' hm
